@@ -662,8 +662,8 @@ func c24SourceReadOnly(r *core.Run, p *core.Prog) {
 				// existing := &plan.DestDay
 				if o := core.ObjOf(info, c.Args[3]); o != nil {
 					core.Walk(f.Decl.Body, false, func(y ast.Node) bool {
-						if a, ok := y.(*ast.AssignStmt); ok && len(a.Lhs) == 1 && core.ObjOf(info, a.Lhs[0]) == o && a.Tok == token.ASSIGN {
-							if !strings.HasSuffix(core.Str(a.Rhs[0]), ".DestDay") {
+						if a, ok := y.(*ast.AssignStmt); ok && len(a.Lhs) == 1 && len(a.Rhs) == 1 && core.ObjOf(info, a.Lhs[0]) == o && (a.Tok == token.ASSIGN || a.Tok == token.DEFINE) {
+							if !strings.HasSuffix(core.Str(a.Rhs[0]), ".DestDay") && !core.IsNil(info, a.Rhs[0]) {
 								okC = false
 							}
 						}
